@@ -4,6 +4,7 @@ pass of the reader over it (the types are created supertypes first) as a simulat
 -/
 import CassisModel.Proofs.EmbeddedTsA
 import CassisModel.Proofs.EmbeddedTsB
+import CassisModel.Proofs.EmbeddedTsPct
 
 namespace Cassis.Json
 open Cassis.TS
@@ -51,7 +52,7 @@ theorem mem_fullRecs (K : Consts) (o : TypeSystem) (t : TypeRec) :
 
 theorem saveJson_full_types (K : Consts) (ts : TypeSystem) (cass : List Cas) (ci : Nat) (hp : Heap)
     (doc : JDoc) (st : Traverse.St) (h : saveJson K ts cass ci hp .full = .ok (doc, st)) :
-    doc.types = some ((fullRecs K ts).map (renderTypeDecl K)) := by
+    ∃ decls, renderTypeDecls K (fullRecs K ts) = .ok decls ∧ doc.types = some decls := by
   unfold saveJson at h
   cases hc : cass[ci]? with
   | none => rw [hc] at h; cases h
@@ -69,9 +70,14 @@ theorem saveJson_full_types (K : Consts) (ts : TypeSystem) (cass : List Cas) (ci
         | error err => rw [hr] at h; cases h
         | ok fsElems =>
           rw [hr] at h
-          simp only at h
-          cases h
-          rfl
+          simp only [renderTypes] at h
+          cases hd : renderTypeDecls K ((sortByName (getTypes K ts false)).filter
+              (fun t => t.name != DOCUMENT_ANNOTATION)) with
+          | error err => rw [hd] at h; cases h
+          | ok decls =>
+            rw [hd] at h
+            cases h
+            exact ⟨decls, hd, rfl⟩
 
 /-! ### What the reader does, step by step -/
 
@@ -95,15 +101,56 @@ def featsStep (K : Consts) (ts : TypeSystem) (jt : JType) : Except Err TypeSyste
   let t ← getType ts jt.name
   jt.feats.foldlM (featStep K t.name) ts
 
+/-- on declarations without feature names starting with `%` (nothing is shadowed, nothing is skipped) -/
 theorem loadEmbeddedTs_eq (K : Consts) (types : List JType)
-    (hdoc : types.any (fun t => t.name == "DocumentAnnotation") = false) :
+    (hdoc : types.any (fun t => t.name == "DocumentAnnotation") = false)
+    (hnp : ∀ jt ∈ types, ∀ jf ∈ jt.feats, jf.name.startsWith "%" = false) :
     loadEmbeddedTs K types = (do
       let order ← toposort types
       let ts1 ← order.foldlM (typeStep K types) Gen.builtinTS
       types.foldlM (featsStep K) ts1) := by
+  have hsup : types.any (fun t => t.feats.any (fun f => f.name == "%SUPER_TYPE")) = false := by
+    rw [List.any_eq_false]
+    intro t ht hc
+    rw [any_name_eq_false _ "%SUPER_TYPE" (by simp) (hnp t ht)] at hc
+    cases hc
+  have key : ∀ (F : TypeSystem → String → Except Err TypeSystem) (G : TypeSystem → JType → Except Err TypeSystem),
+      F = typeStep K types → (∀ ts1, types.foldlM G ts1 = types.foldlM (featsStep K) ts1) →
+      (do
+        let order ← toposort types
+        let ts1 ← order.foldlM F Gen.builtinTS
+        types.foldlM G ts1) = (do
+        let order ← toposort types
+        let ts1 ← order.foldlM (typeStep K types) Gen.builtinTS
+        types.foldlM (featsStep K) ts1) := by
+    intro F G hF hG
+    subst hF
+    simp only [bind, Except.bind]
+    cases toposort types with
+    | error e => rfl
+    | ok order =>
+      simp only
+      cases List.foldlM (typeStep K types) Gen.builtinTS order with
+      | error e => rfl
+      | ok ts1 => exact hG ts1
   unfold loadEmbeddedTs
-  simp only [hdoc, Bool.false_eq_true, if_false]
-  rfl
+  simp only [hdoc, hsup, Bool.false_eq_true, if_false]
+  refine key _ _ ?_ ?_
+  · funext ts n
+    unfold typeStep
+    split
+    · rfl
+    · cases hf : types.find? (fun t => t.name == n) with
+      | none => rfl
+      | some jt =>
+        have hjt : jt ∈ types := List.mem_of_find?_eq_some hf
+        simp only [any_name_eq_false _ "%DESCRIPTION" (by simp) (hnp jt hjt), Bool.false_eq_true, if_false]
+  · intro ts1
+    apply foldlM_congr_mem'
+    intro acc jt hjt
+    unfold featsStep
+    rw [filter_noPct _ (hnp jt hjt)]
+    rfl
 
 /-! ### The declarations against the original -/
 
@@ -141,26 +188,26 @@ theorem rank_lt {o : TypeSystem} (hc : Consistent o) {t : TypeRec} {s : String} 
 
 /-- what every written declaration says, in terms of the original -/
 theorem types_facts {o : TypeSystem} (ho : Hist o) (hw : Writable Gen.consts o) (jt : JType)
-    (hjt : jt ∈ (fullRecs Gen.consts o).map (renderTypeDecl Gen.consts)) :
-    ∃ t s, find? o jt.name = some t ∧ t ∈ fullRecs Gen.consts o ∧ jt = renderTypeDecl Gen.consts t ∧
+    (hjt : jt ∈ (fullRecs Gen.consts o).map (renderTypeDecl0 Gen.consts)) :
+    ∃ t s, find? o jt.name = some t ∧ t ∈ fullRecs Gen.consts o ∧ jt = renderTypeDecl0 Gen.consts t ∧
       t.super = some s ∧ jt.super = s ∧ Gen.consts.finalTypes.contains s = false ∧ jt.descr = t.descr := by
   obtain ⟨t, ht, rfl⟩ := List.mem_map.mp hjt
   obtain ⟨hto, hp, hnd⟩ := (mem_fullRecs _ _ _).mp ht
   obtain ⟨s, hs, hnf⟩ := ho.nofinal t hto hp
   refine ⟨t, s, find?_of_mem ho.cons.nodup hto, ht, rfl, hs, ?_, hnf, ?_⟩
-  · simp [renderTypeDecl, hs]
+  · simp [renderTypeDecl0, hs]
   · exact descr_norm _ (hw.2 t hto hp hnd).1
 
 theorem types_no_dockey {o : TypeSystem} (hw : Writable Gen.consts o) :
-    ((fullRecs Gen.consts o).map (renderTypeDecl Gen.consts)).any (fun t => t.name == "DocumentAnnotation") = false := by
-  cases h : ((fullRecs Gen.consts o).map (renderTypeDecl Gen.consts)).any (fun t => t.name == "DocumentAnnotation") with
+    ((fullRecs Gen.consts o).map (renderTypeDecl0 Gen.consts)).any (fun t => t.name == "DocumentAnnotation") = false := by
+  cases h : ((fullRecs Gen.consts o).map (renderTypeDecl0 Gen.consts)).any (fun t => t.name == "DocumentAnnotation") with
   | false => rfl
   | true =>
     exfalso
     obtain ⟨jt, hjt, hn⟩ := List.any_eq_true.mp h
     obtain ⟨t, ht, rfl⟩ := List.mem_map.mp hjt
     have hto := ((mem_fullRecs _ _ _).mp ht).1
-    have hn' : t.name = "DocumentAnnotation" := by simpa [renderTypeDecl] using hn
+    have hn' : t.name = "DocumentAnnotation" := by simpa [renderTypeDecl0] using hn
     have : hasExact o "DocumentAnnotation" = true :=
       (hasExact_iff_mem o _).mpr (List.mem_map.mpr ⟨t, hto, hn'⟩)
     rw [hw.1] at this; cases this
@@ -169,14 +216,14 @@ theorem types_no_dockey {o : TypeSystem} (hw : Writable Gen.consts o) :
 
 theorem typesPass {o : TypeSystem} (ho : Hist o) (hw : Writable Gen.consts o) :
     ∀ (post : List String) (ts : TypeSystem), EInv o ts →
-      post.Pairwise (fun a b => ∀ t ∈ (fullRecs Gen.consts o).map (renderTypeDecl Gen.consts),
+      post.Pairwise (fun a b => ∀ t ∈ (fullRecs Gen.consts o).map (renderTypeDecl0 Gen.consts),
         t.name = a → t.super = b → b = a) →
-      (∀ x ∈ post, (∃ t ∈ (fullRecs Gen.consts o).map (renderTypeDecl Gen.consts), t.name = x) ∨
-        (∃ t ∈ (fullRecs Gen.consts o).map (renderTypeDecl Gen.consts), t.super = x)) →
-      (∀ t ∈ (fullRecs Gen.consts o).map (renderTypeDecl Gen.consts),
+      (∀ x ∈ post, (∃ t ∈ (fullRecs Gen.consts o).map (renderTypeDecl0 Gen.consts), t.name = x) ∨
+        (∃ t ∈ (fullRecs Gen.consts o).map (renderTypeDecl0 Gen.consts), t.super = x)) →
+      (∀ t ∈ (fullRecs Gen.consts o).map (renderTypeDecl0 Gen.consts),
         (t.name ∉ post → hasExact ts t.name = true) ∧ (t.super ∉ post → hasExact ts t.super = true)) →
-      ∃ ts', post.foldlM (typeStep Gen.consts ((fullRecs Gen.consts o).map (renderTypeDecl Gen.consts))) ts = .ok ts' ∧
-        EInv o ts' ∧ ∀ t ∈ (fullRecs Gen.consts o).map (renderTypeDecl Gen.consts), hasExact ts' t.name = true := by
+      ∃ ts', post.foldlM (typeStep Gen.consts ((fullRecs Gen.consts o).map (renderTypeDecl0 Gen.consts))) ts = .ok ts' ∧
+        EInv o ts' ∧ ∀ t ∈ (fullRecs Gen.consts o).map (renderTypeDecl0 Gen.consts), hasExact ts' t.name = true := by
   intro post
   induction post with
   | nil =>
@@ -194,7 +241,7 @@ theorem typesPass {o : TypeSystem} (ho : Hist o) (hw : Writable Gen.consts o) :
         rcases Bool.or_eq_true_iff.mp hskip with h | h
         · exact hi.grow.reg n (builtin_pre n h)
         · exact h
-      have hstep : typeStep Gen.consts ((fullRecs Gen.consts o).map (renderTypeDecl Gen.consts)) ts n = .ok ts := by
+      have hstep : typeStep Gen.consts ((fullRecs Gen.consts o).map (renderTypeDecl0 Gen.consts)) ts n = .ok ts := by
         unfold typeStep; rw [hskip]; rfl
       rw [hstep]
       apply ih ts hi hpw' hsrc'
@@ -212,7 +259,7 @@ theorem typesPass {o : TypeSystem} (ho : Hist o) (hw : Writable Gen.consts o) :
     | false =>
       obtain ⟨hpre, hnew⟩ := Bool.or_eq_false_iff.mp hskip
       -- `n` is a declared name
-      have hdecl : ∃ jt ∈ (fullRecs Gen.consts o).map (renderTypeDecl Gen.consts), jt.name = n := by
+      have hdecl : ∃ jt ∈ (fullRecs Gen.consts o).map (renderTypeDecl0 Gen.consts), jt.name = n := by
         rcases hsrc n List.mem_cons_self with h | ⟨jt', hjt', hs'⟩
         · exact h
         · obtain ⟨t', s', _, ht', _, hts', hjs', _, _⟩ := types_facts ho hw jt' hjt'
@@ -227,18 +274,18 @@ theorem typesPass {o : TypeSystem} (ho : Hist o) (hw : Writable Gen.consts o) :
               rw [← find?_name htn, e]
               exact hi.grow.reg _ (by decide +kernel)
             rw [hnew] at this; cases this
-          refine ⟨renderTypeDecl Gen.consts tn, List.mem_map.mpr ⟨tn, ?_, rfl⟩, ?_⟩
+          refine ⟨renderTypeDecl0 Gen.consts tn, List.mem_map.mpr ⟨tn, ?_, rfl⟩, ?_⟩
           · exact (mem_fullRecs _ _ _).mpr ⟨find?_mem htn, by rw [find?_name htn]; exact hpre, hnd⟩
           · show tn.name = s'
             exact find?_name htn
       obtain ⟨jt1, hjt1, hjn1⟩ := hdecl
-      cases hfind : ((fullRecs Gen.consts o).map (renderTypeDecl Gen.consts)).find? (fun t => t.name == n) with
+      cases hfind : ((fullRecs Gen.consts o).map (renderTypeDecl0 Gen.consts)).find? (fun t => t.name == n) with
       | none =>
         exfalso
         have := List.find?_eq_none.mp hfind jt1 hjt1
         simp [hjn1] at this
       | some jt =>
-        have hjt : jt ∈ (fullRecs Gen.consts o).map (renderTypeDecl Gen.consts) := List.mem_of_find?_eq_some hfind
+        have hjt : jt ∈ (fullRecs Gen.consts o).map (renderTypeDecl0 Gen.consts) := List.mem_of_find?_eq_some hfind
         have hjn : jt.name = n := by simpa using List.find?_some hfind
         obtain ⟨t, s, hto, ht, _, hts, hjs, hnf, hjd⟩ := types_facts ho hw jt hjt
         rw [hjn] at hto
@@ -260,7 +307,7 @@ theorem typesPass {o : TypeSystem} (ho : Hist o) (hw : Writable Gen.consts o) :
         obtain ⟨sup, hsup⟩ := (hasExact_iff_find _ _).mp hsreg
         obtain ⟨ts1, h1, hc1, hf1, hs1, hg1, hreg1⟩ :=
           createType_step Gen.consts o ho.feat ts n s t sup hi.cons hi.feat hi.sub hnew hsup hnf hto hts
-        have hstep : typeStep Gen.consts ((fullRecs Gen.consts o).map (renderTypeDecl Gen.consts)) ts n = .ok ts1 := by
+        have hstep : typeStep Gen.consts ((fullRecs Gen.consts o).map (renderTypeDecl0 Gen.consts)) ts n = .ok ts1 := by
           unfold typeStep
           rw [hskip, hfind]
           simp only [Bool.false_eq_true, if_false]
